@@ -47,7 +47,8 @@ def main():
                 if m.get("only"):
                     cmd += ["--only", m["only"]]
                 t0 = time.time()
-                r = subprocess.run(cmd, cwd=ROOT, capture_output=True, text=True)
+                env = dict(os.environ, VERIF_EVIDENCE_DIR="/tmp/mutate-evidence", VERIF_REPLAY_DIR="/tmp/mutate-replay")
+                r = subprocess.run(cmd, cwd=ROOT, capture_output=True, text=True, env=env)
                 lines = [l for l in r.stdout.splitlines() if l.startswith("VIOLATION") or l.startswith("  case=")]
                 verdict = {0: "MISSED", 1: "caught"}.get(r.returncode, f"exit{r.returncode}")
                 print(f"{m['id']} [{p}] {verdict} ({time.time() - t0:.0f}s) {m.get('note', '')}")
